@@ -170,6 +170,7 @@ _intrinsic_2_descs = [
     "INTRINSIC_TYPEVAR_WITH_BOUND",
     "INTRINSIC_TYPEVAR_WITH_CONSTRAINTS",
     "INTRINSIC_SET_FUNCTION_TYPE_PARAMS",
+    "INTRINSIC_SET_TYPEPARAM_DEFAULT",  # 3.13 (PEP 696)
 ]
 
 def format_CALL_INTRINSIC_1(arg) -> str:
